@@ -94,6 +94,15 @@ CLAIMED = {
              "(C extensions trusted); auto-update and debug log off; the inventory is a syntactic scan",
         ref="DESIGN.md section 5 C17", rx=True,
     ),
+    "C18": dict(
+        text="(RX, unbounded) the suffix regex built by create_src_file_exts_str(S) as a z3 regular language equals, over ALL printable "
+             "ASCII file names, the set of names ending in a documented default suffix (any case) or a configured suffix, for 6 "
+             "configurations incl. regex metacharacters and look-alikes. (Tree) _get_source_files/_add_source_dirs over a symbolic "
+             "in-memory tree x source_dirs x exclusion-path x suffix configurations: indexed set == prescribed set.",
+        note="listdir/walk/isfile replaced by an in-memory tree; exclusion is exact path match after glob resolution; glob expansion "
+             "(pathlib on the real FS) not covered; tree contents are solver-forked masks, configurations below them enumerated concretely",
+        ref="DESIGN.md section 5 C18", rx=True,
+    ),
 }
 
 NOT_APPLICABLE = {
